@@ -12,7 +12,7 @@ EXPLANATION = (
     "network roles decided by dependence on the `policy` / `target_policy` parameters; C07.2 SAC target normal form == "
     "r + gamma*(min(q1_tgt,q2_tgt)(s',a') - alpha*logpi(a'))*NT with (a', logpi) items of one action_and_log_prob call on s'; "
     "C07.3 the non-terminal mask is the Boolean function ~done | timeout (truth-table canonical form) in both siblings; "
-    "C07.4 gradient scope: every filter_value_and_grad differentiates parameter 0 only, targets and target networks arrive "
+    "C07.6 composed with the collector's stored flags (AbstractOffPolicyAlgorithm.step) the mask is ~terminal; C07.4 gradient scope: every filter_value_and_grad differentiates parameter 0 only, targets and target networks arrive "
     "through other parameters, actor update does not reassign critics; C07.5 both critics regress onto one target node."
 )
 ASSUMPTIONS = [
@@ -255,5 +255,20 @@ def check(s):
     names = [a.arg for a in s.method("SAC", "actor_loss")[2].args.args]
     s.ob("C07.4", con6, names[:1] == ["policy"] and "qf1" in names[1:] and "qf2" in names[1:],
          "actor_loss(policy, batch, qf1, qf2, ...): only the policy is differentiated", loc6, key="actor-params", detail=str(names))
-    for r, n in (("C07.1", 4), ("C07.2", 8), ("C07.3", 12), ("C07.4", 12), ("C07.5", 1)):
+    # ---------------------------------------------------------------- C07.6 producer ∘ consumer
+    # The losses read the flags the collector wrote. Composing the collector's Boolean expressions for (done, timeout) with the
+    # mask ~done | timeout (C07.3) must give exactly ~terminated, whatever the time limit did on that step.
+    from .stepref import off_policy_adds
+    for o in off_policy_adds(s):
+        nzb = Normalizer(o["b"])
+        d, t = o["args"].get("done"), o["args"].get("timeout")
+        term = o["ref"]["term"]
+        ok = d is not None and t is not None
+        got = nzb.boolean(("bin", "BitOr", ("un", "Invert", d), t)) if ok else None
+        want = nzb.boolean(("un", "Invert", term))
+        s.ob("C07.6", o["con"], ok and got == want,
+             "with the flags as the collector writes them, ~done | timeout is the Boolean function ~terminal(successor) (independent of truncation)", o["loc"],
+             key="collector-mask-composition", detail=f"composed: {show_term(got, 300) if got else 'flags missing'}\nwanted:   {show_term(want, 300)}",
+             necessary_for="the target never bootstraps through a termination, also when the time limit expires on the terminating step, and always through a pure truncation")
+    for r, n in (("C07.1", 4), ("C07.2", 8), ("C07.3", 12), ("C07.4", 12), ("C07.5", 1), ("C07.6", 2)):
         s.floor(r, n)
